@@ -700,7 +700,7 @@ def correspond(ctx, proof_ok=True):
     ctx.coverage['pydl_file'] = pydl_file
 
     # which load model matches the code?  the translator says; if it did not recognise the source, try both
-    cc = C.CoqCases(ctx.work, HEADER, 'run_fcases', shard=ctx.n(8, 40))
+    cc = C.CoqCases(ctx.work, HEADER, 'run_fcases', shard=ctx.n(8, 16))
     usable = []
     for k, (fi, out) in enumerate(zip(files, outs)):
         if out.get('reader_error') or out['rows'] is None:
